@@ -7,6 +7,7 @@ import (
 
 var checks = map[string]func(*Report){
 	"C01": runC01,
+	"C02": runC02,
 	"C03": runC03,
 	"C04": runC04,
 	"C05": runC05,
